@@ -452,8 +452,22 @@ def run_resolver_case(label, factory, position, mode, res, viol):
         if not (label in ("StopIteration", "StopAsyncIteration")):
             viol("resolver_error_not_the_original", f"{label} at {position} ({mode})", f"original_error {e.original_error!r}")
             return False
+    # the error is located at the field that failed - unless the exception brings a location of its own (AST nodes, or a source
+    # together with offsets into it, or it is a GraphQLError); an unrelated 'source' attribute alone must not move it
+    own_location = (label.startswith("GraphQLError") or "nodes=node" in label or label in ("user:nodes_ast", "user:nodes_single", "user:positions_oor", "user:source_str")
+                    or label.endswith("+positions=ints") or label.endswith("+positions=big"))
+    locs = [(loc.line, loc.column) for loc in e.locations or []]
+    key = (position, mode)
+    if label == "user:plain":
+        _FIELD_LOCATION[key] = locs
+    elif not own_location and key in _FIELD_LOCATION and locs != _FIELD_LOCATION[key]:
+        viol("resolver_error_location", f"{label} at {position} ({mode})", f"located at {locs}, the failing field is at {_FIELD_LOCATION[key]}")
+        return False
     res.outcome(("res", position, mode, type(e.original_error).__name__, r.data is None))
     return True
+
+
+_FIELD_LOCATION = {}
 
 
 # --------------------------------------------------------------------------- escape sequences
@@ -940,6 +954,10 @@ def run_shard(shard, tier):
     elif kind == "resolvers":
         part, parts = arg
         menu = exception_menu()
+        plain = next(m for m in menu if m[0] == "user:plain")
+        for pos in POSITIONS:  # where the failing field of each position is (for the location clause)
+            for mode in ("sync", "async"):
+                run_resolver_case(plain[0], plain[1], pos, mode, res, viol)
         for ei, (label, factory) in enumerate(menu):
             if ei % parts != part:
                 continue
